@@ -58,7 +58,7 @@ var wantReject = map[int]wire.RejectCode{
 	10: wire.RejectDuplicate, 11: wire.RejectInvalid, 12: wire.RejectDuplicate, 13: wire.RejectDuplicate,
 	14: wire.RejectInvalid, 15: wire.RejectInsufficientFee, 16: wire.RejectNonstandard, 17: wire.RejectInvalid,
 	18: wire.RejectInsufficientFee, 19: wire.RejectInsufficientFee, 20: wire.RejectInvalid, 21: wire.RejectInvalid,
-	22: wire.RejectDuplicate, 23: wire.RejectNonstandard,
+	22: wire.RejectDuplicate, 23: wire.RejectNonstandard, 24: wire.RejectNonstandard, 25: wire.RejectNonstandard,
 }
 
 func idsOfDescs(c *Concrete, ds []*btcmempool.TxDesc) []int {
